@@ -467,6 +467,14 @@ def _ensure_minor_version_compatibility(types: list[_serializable.CompositeType]
             for a in subject_to_check:
                 for b in subject_to_check:
                     if a is not b:
+                        if a.version.minor == b.version.minor:
+                            # E.g., Foo.1.0.dsdl next to 123.Foo.1.0.dsdl or Foo.1.0.uavcan with a different body.
+                            from ._data_type_builder import DataTypeCollisionError
+
+                            raise DataTypeCollisionError(
+                                "This definition has the same name and version as %s" % b.source_file_path,
+                                path=a.source_file_path,
+                            )
                         _ensure_minor_version_compatibility_pairwise(a, b)
 
 
